@@ -207,7 +207,7 @@ fn rt_gate_random_access() {
     assert!(r.num_copies == g.num_copies, "RandomAccessGate: num_copies changed");
     assert!(r.num_extra_constants == g.num_extra_constants, "RandomAccessGate: num_extra_constants changed");
     consumed_all!(buf, b);
-    kani::cover!(g.bits != g.num_copies && g.num_copies != g.num_extra_constants && g.bits != g.num_extra_constants);
+    kani::cover!(g.bits != g.num_copies && g.num_copies != g.num_extra_constants && g.bits != g.num_extra_constants, "pairwise distinct fields");
     forget(cd);
 }
 
@@ -341,7 +341,7 @@ fn rt_gen_constant() {
     assert!(r.wire_index == g.wire_index, "ConstantGenerator: wire_index changed");
     assert!(r.constant == g.constant && r.constant.0 < P, "ConstantGenerator: constant changed");
     consumed_all!(buf, b);
-    kani::cover!(g.row != g.constant_index && g.constant_index != g.wire_index && g.row != g.wire_index && c >= P);
+    kani::cover!(g.row != g.constant_index && g.constant_index != g.wire_index && g.row != g.wire_index && c >= P, "pairwise distinct fields, non-canonical constant");
     forget(cd);
 }
 
